@@ -16,7 +16,7 @@ import (
 
 type c14Case struct {
 	Root    *model.Node `json:"root"`
-	Logical model.Val   `json:"logical"` // record keyed by schema key
+	Logical model.Val   `json:"logical"`       // record keyed by schema key
 	FEs     []string    `json:"fes,omitempty"` // front ends to render (empty = all)
 }
 
